@@ -63,6 +63,8 @@ func (s *_watchSession) done() <-chan struct{} {
 }
 
 func (s *_watchSession) stop() {
+	// unblock a Watch() call that is still connecting; nobody else would
+	s.cancel()
 	s.lc.ShutdownAsync(nil)
 }
 
